@@ -137,6 +137,7 @@ type client struct {
 	finWithData  bool // the FIN rides on the last data segment
 	srvFinSeen   bool
 	ackedSrvFin  bool
+	pshFirst     bool // the first data segment is pushed too: the reader runs (and closes) while data is still coming
 }
 
 var me = [4]byte{127, 0, 0, 1}
@@ -171,6 +172,13 @@ func (c *client) next() *Seg {
 		}
 		return &s
 	case 2:
+		if c.idx < len(c.segs) && c.ackFinFirst && c.srvFinSeen && !c.ackedSrvFin {
+			// the listener has closed already (its reader ran): acknowledge that FIN on its own
+			// before the remaining data (whose last segment may carry the client's FIN)
+			c.ackedSrvFin = true
+			s := c.seg(fACK, nil)
+			return &s
+		}
 		if c.idx < len(c.segs) {
 			p := c.segs[c.idx]
 			// checksum steering: re-cut the remaining data so that the next segment ends where
@@ -212,6 +220,9 @@ func (c *client) next() *Seg {
 			}
 			fl := fACK
 			if c.pshLast && c.idx == len(c.segs)-1 {
+				fl |= fPSH
+			}
+			if c.pshFirst && c.idx == 0 {
 				fl |= fPSH
 			}
 			if c.finWithData && c.idx == len(c.segs)-1 {
@@ -264,6 +275,8 @@ func parseOut(fr []byte) (flags int, seq, ack uint32, ipid int, ok bool) {
 }
 
 var removed, removedWhileOthersActive, steered, samePortPairs int
+var eventMissed bool
+var wrapAligned int
 
 // the 16-bit one's-complement sum of the ACK the listener will send for a data segment of
 // length L needs two carries when folded (a single fold leaves a value above 0xffff)
@@ -369,6 +382,7 @@ func runCase(r *hx.Rand, nconn int, tier string) ([]Step, string) {
 		c.crossFin = r.Chance(1, 3)
 		c.ackFinFirst = !c.crossFin && r.Chance(1, 2)
 		c.finWithData = r.Chance(1, 4)
+		c.pshFirst = r.Chance(1, 3)
 		c.steer = r.Chance(1, 2)
 		if c.steer {
 			var all []byte
@@ -384,6 +398,12 @@ func runCase(r *hx.Rand, nconn int, tier string) ([]Step, string) {
 				}
 				c.segs = append(c.segs, hx.B(all[off:end]))
 			}
+		}
+		if len(c.segs) > 0 && !c.steer && r.Chance(1, 3) {
+			// sequence-number alignment: the acknowledgement of the first data segment lands on
+			// 2^32-1, 0 or 1
+			c.isn = uint32(int64(1)<<32 - 2 - int64(len(c.segs[0])) + int64(r.Range(0, 2)))
+			wrapAligned++
 		}
 		clients = append(clients, c)
 		arp = append(arp, canary.ARPEntry{IP: net.IPv4(c.sip[0], c.sip[1], c.sip[2], c.sip[3]), HardwareAddress: macOf(c.sip), Interface: "lo"})
@@ -448,13 +468,23 @@ func runCase(r *hx.Rand, nconn int, tier string) ([]Step, string) {
 		expectReader := c.established && !c.readerDone && !decoded[c.dport] && (s.Flags&fPSH != 0 || s.Flags&fFIN != 0)
 		var evs []event.Event
 		if expectReader {
-			deadline := time.Now().Add(1500 * time.Millisecond)
+			// generous: the wait only costs time when the event is really missing, and then once
+			// per connection (a loaded machine may keep the reader goroutine waiting for seconds)
+			wait := 20 * time.Second
+			if eventMissed {
+				wait = 2 * time.Second
+			}
+			deadline := time.Now().Add(wait)
 			for time.Now().Before(deadline) {
 				evs = append(evs, cap.take()...)
 				if len(evs) > 0 {
 					break
 				}
 				time.Sleep(200 * time.Microsecond)
+			}
+			if len(evs) == 0 {
+				eventMissed = true
+				c.readerDone = true
 			}
 		}
 		frames := v.DrainTx()
@@ -722,5 +752,6 @@ func main() {
 	dist["state-removed"] = removed
 	dist["state-removed-while-others-active"] = removedWhileOthersActive
 	dist["peers-sharing-a-port-pair"] = samePortPairs
+	dist["first-ack-at-sequence-wrap"] = wrapAligned
 	hx.Write(o, "C14", "tcp", "From HT Require Import Common.Bytes C14.Model C14.Check.", "case", cases, dist, nil, 40)
 }
